@@ -11,10 +11,25 @@ func C02_Slice[T signal.SignalTypes]() {
 	base := allocAny[T](C, K, "base")
 	ps, pe := window("p", K)
 	parent := base.Slice(ps, pe)
+	if pe < K {
+		// ragged parents too: a partly filled last frame
+		for i, n := 0, vf.Pick("ragged", 0, C-1); i < n; i++ {
+			parent.AppendSample(vf.Any[T]("tail"))
+		}
+	}
 	start, end := vf.Any[int]("start"), vf.Any[int]("end") // all 2^128 pairs
 	pl, pc, pcap, plen := parent.Len(), parent.Cap(), parent.Capacity(), parent.Length()
 	var child *signal.Buffer[T]
+	var k0 int
+	var before0 T
+	if base.Len() > 0 {
+		k0 = vf.IntRange("k0", 0, base.Len()-1)
+		before0 = base.Sample(k0)
+	}
 	panicked := vf.Panics(func() { child = parent.Slice(start, end) })
+	if base.Len() > 0 {
+		vf.Assert("slicing-writes-nothing", vf.SameBits(base.Sample(k0), before0))
+	}
 	inRange := 0 <= start && start <= end && end <= pcap
 	vf.Assert("panics-iff-out-of-range", panicked == !inRange)
 	vf.Assert("parent-shape-unchanged", parent.Len() == pl && parent.Cap() == pc && parent.Capacity() == pcap && parent.Length() == plen)
@@ -31,6 +46,13 @@ func C02_Slice[T signal.SignalTypes]() {
 	vf.Assert("len", child.Len() == C*(end-start))
 	vf.Assert("capacity", child.Capacity() == pcap-start)
 	vf.Assert("cap", child.Cap() == C*(pcap-start))
+	// the view is a header of its own: a length change through it leaves the parent's length alone
+	if child.Len() < child.Cap() {
+		vf.Cover("child-append")
+		child.AppendSample(vf.Any[T]("x"))
+		vf.Assert("child-grew", child.Len() == C*(end-start)+1)
+		vf.Assert("parent-length-unchanged-by-child-append", parent.Len() == pl && parent.Length() == plen)
+	}
 	full := child.Slice(0, child.Capacity())
 	if full.Len() == 0 {
 		vf.Cover("empty-child")
